@@ -2,7 +2,7 @@
 from hypothesis import strategies as st
 
 from ..model import ast as A, strategies as S
-from ..run import Outcome, Violation, exc_bucket
+from ..run import Outcome, Violation, exc_bucket, sha
 from .. import canon
 from ..valuecmp import IllConditioned
 from . import common as K
@@ -11,7 +11,8 @@ ID = "C02"
 RULE = ("Hypothesis constructs parameter-free script models (metadata with/without target/type and option dictionaries, "
         "typed scalars, arrays, redeclarations, statements with any bracket style for modes incl. unbalanced ones, optional "
         "trailing comma, positional/keyword/list arguments, Measure* operations, for-loops) rendered with generated spacing; "
-        "an independent reference interpreter (bbv/model/refsem.py) computes the denoted program; blackbird.loads must return "
+        "an independent reference interpreter (bbv/model/refsem.py) computes the denoted program; blackbird.loads (for a third "
+        "of the cases blackbird.load of a file whose previous version was loaded from the same path just before) must return "
         "the same name/version/target/type/options (keys in written order), one operation per executed statement in order, "
         "modes as Integral in order, arguments literal-exact / computed within 1e-12, mode set and len(). Non-trivial = >=4 "
         "statements, a variable referenced >=2 items after its declaration, and one of {loop, options, list kwarg}. "
@@ -44,7 +45,13 @@ def check(c):
     feats, nstmt = K.features(script)
     out = Outcome(key=text, sample={"script": text}, classes=sorted(feats))
     out.nontrivial = nstmt >= 4 and K.var_used_after_gap(script) and bool(feats & {"loop", "options", "list-kwarg"})
-    p, e = K.safe_loads(text)
+    via_file = text.isascii() and int(sha(text)[:2], 16) % 3 == 0
+    if via_file:
+        # the file entry point, always at the same path (rewritten for every case of this process)
+        out.classes.append("load(path)")
+        p, e = K.safe_load_text_via_file(text)
+    else:
+        p, e = K.safe_loads(text)
     if e is not None:
         out.violations.append(Violation(exc_bucket("load", e), "valid script refused: %s: %s\nscript:\n%s" % (type(e).__name__, e, text)))
         return out
